@@ -45,7 +45,7 @@ ASSUMPTIONS = [
 ]
 
 VARIANTS = {"g": render.VARIANTS["g"], "d": {}}
-PROFILE = {"allow_regex_nokeep_single": False, "allow_raw_callbacks": False, "p_default": 0.4, "p_instance_proto": 0.6,
+PROFILE = {"p_local_classes": 0.4, "allow_regex_nokeep_single": False, "allow_raw_callbacks": False, "p_default": 0.4, "p_instance_proto": 0.6,
            "p_rep": 0.28, "p_opt": 0.12, "p_move": 0.08, "p_backward_at": 0.0,
            "kinds": {"int": 30, "data": 22, "bits": 8, "ref": 24, "sel": 12, "em": 2}}
 
@@ -259,6 +259,8 @@ def history_part(run, bench, rng, nops):
             continue
         run.count("history_operations")
         run.case(key=(bench.skeleton, op, len(lives)), nontrivial=len(lives) >= 2)
+        if step == nops - 1 and len(run.samples) < 2 and len(lives) >= 3:
+            run.sample({"part": "A", "source": driver.src_of(bench, "g"), "history": list(history)})
         if not check_all(run, bench, lives, history, acting):
             return False
     return True
@@ -415,6 +417,9 @@ def controlled_part(run, bench, rng, limit):
             return
         run.count("interleavings_executed")
         key = common.stable_hash([list(x) for x in sched.observed])
+        if len(run.samples) < 4 and len(set(order)) > 1 and order != sorted(order):
+            run.sample({"part": "B", "source": driver.src_of(bench), "inputs": [raw0, raw1], "forced_order_of_threads": order,
+                        "observed_hook_points": [list(x) for x in sched.observed[:30]]})
         run.cover("distinct_hook_orders", key)
         run.case(key="B:" + key, nontrivial=True)
         for idx, (raw, seq) in enumerate(((raw0, seq0), (raw1, seq1))):
@@ -605,9 +610,12 @@ def run(run):
     # Part C
     nb, nops = (6, 300) if quick else (12, 1500)
     benches = []
-    gen = driver.families(run, rng, PROFILE, VARIANTS, nb, instrument=(), tag="c13c")
+    # the classes stay importable (sys.modules) while the threads run: prototype cloning unpickles by module name
+    gen = driver.families(run, rng, PROFILE, VARIANTS, nb, instrument=(), tag="c13c", keep_loaded=True)
     for bench in gen:
         benches.append(bench)
         if len(benches) >= nb:
             free_part(run, benches, rng, 8, nops)
+            for b in benches:
+                b.close()
     run.extra["distinct_interleavings"] = len(run.coverage_sets.get("distinct_hook_orders", ()))
